@@ -33,8 +33,12 @@ var (
 	stateIdle      = protocol.NewState(1, "Idle")
 	stateAcquiring = protocol.NewState(2, "Acquiring")
 	stateAcquired  = protocol.NewState(3, "Acquired")
-	stateBusy      = protocol.NewState(4, "Busy")
+	stateBusy      = protocol.NewState(4, "Busy") // busy with a HasTx request
 	stateDone      = protocol.NewState(5, "Done")
+	// The busy state is indexed by the kind of the outstanding request, so
+	// that only the matching reply is accepted
+	stateBusyNextTx   = protocol.NewState(6, "BusyNextTx")
+	stateBusyGetSizes = protocol.NewState(7, "BusyGetSizes")
 )
 
 // LocalTxMonitor protocol state machine
@@ -78,11 +82,11 @@ var StateMap = protocol.StateMap{
 			},
 			{
 				MsgType:  MessageTypeNextTx,
-				NewState: stateBusy,
+				NewState: stateBusyNextTx,
 			},
 			{
 				MsgType:  MessageTypeGetSizes,
-				NewState: stateBusy,
+				NewState: stateBusyGetSizes,
 			},
 		},
 	},
@@ -93,10 +97,20 @@ var StateMap = protocol.StateMap{
 				MsgType:  MessageTypeReplyHasTx,
 				NewState: stateAcquired,
 			},
+		},
+	},
+	stateBusyNextTx: protocol.StateMapEntry{
+		Agency: protocol.AgencyServer,
+		Transitions: []protocol.StateTransition{
 			{
 				MsgType:  MessageTypeReplyNextTx,
 				NewState: stateAcquired,
 			},
+		},
+	},
+	stateBusyGetSizes: protocol.StateMapEntry{
+		Agency: protocol.AgencyServer,
+		Transitions: []protocol.StateTransition{
 			{
 				MsgType:  MessageTypeReplyGetSizes,
 				NewState: stateAcquired,
